@@ -83,6 +83,27 @@ def run(ctx):
         res.site(key, True, dict(r or {}, expected_edge=w, verdict="ok" if ok else "VIOLATION"))
         if not ok:
             res.find(key, b.loc(), "no call site records (%s frames, %s, %s queue) with %s edges keyed per frame; found rows: %s" % (k_[0], k_[1], "timed" if k_[2] else "untimed", w, [(x["frames"], x["interaction"], x["only_if_scheduled"], x["edge_kinds"]) for x in rows]), "two PULSEs on one frame are not ordered by Scheduled edges, or a blocked frame is recorded as used")
+    # the queues are keyed by the frame's full identity (name and ordered qubit list)
+    FRAMEID = "quil_rs::instruction::frame::FrameIdentifier"
+    key = "K10|frame-queue-key-type"
+    keys_ = []
+    for l_, decl in enumerate(b.locals):
+        ty = db.types[decl["t"]]
+        if ty["k"] == "adt" and ty["path"].endswith("HashMap") and len(ty.get("args", [])) >= 2 and "InstructionFrameInteraction" in db.ty_s(ty["args"][1]) and "DependencyQueue" in db.ty_s(ty["args"][1]):
+            keys_.append(ty["args"][0])
+    keys_ = sorted(set(keys_))
+    verdict = "undecided: no frame-queue map found" if not keys_ else "ok"
+    shown = [db.ty_s(k_)[:90] for k_ in keys_]
+    for k_ in keys_:
+        if db.ty_contains(k_, db.adt_pred(FRAMEID)):
+            continue
+        lossy = db.ty_contains(k_, lambda t: t["k"] == "adt" and t["path"].rsplit("::", 1)[-1] in ("BTreeSet", "HashSet", "IndexSet", "BTreeMap", "HashMap"))
+        verdict = "VIOLATION" if lossy else "undecided: key type %s" % db.ty_s(k_)[:60]
+    res.site(key, True, {"key_types": shown, "verdict": verdict})
+    if verdict == "VIOLATION":
+        res.find(key, b.loc(), "the per-frame queues are keyed by %s, which forgets the order of a frame's qubits: distinct frames such as `0 1 \"cz\"` and `1 0 \"cz\"` share one queue" % shown, "non-blocking pulses on `0 1 \"cz\"` and `1 0 \"cz\"` get a frame edge although they use different frames")
+    elif verdict != "ok":
+        res.undecided.append(key + " " + verdict)
     extra = [k_ for k_ in got if k_ not in want]
     if extra:
         res.find("K8|frame-wiring|unexpected", b.loc(), "unexpected frame-queue call sites: %s" % extra)
